@@ -491,6 +491,23 @@ def op05_misindent(lines, docs, rng):
     return out
 
 
+_QUOTED = re.compile(r"'(?:[^'\n]|'')*'|\"(?:[^\"\\\n]|\\.)*\"")
+
+
+def unquoted(text):
+    """the text with its (one-line) quoted scalars and its comments blanked out"""
+    t = _QUOTED.sub("Q", strip(text))
+    return re.sub(r"(^|\s)#[^\n]*", " ", t)
+
+
+def has_plain_scalar(flow_text):
+    """does the text of a (partial) flow collection hold a plain scalar?"""
+    t = unquoted(flow_text).replace("Q", " ")
+    t = re.sub(r"[&*][A-Za-z0-9]+", " ", t)
+    t = re.sub(r"![^\s,\[\]{}]*", " ", t)
+    return bool(re.sub(r"[\[\]{},:?\s]", "", t))
+
+
 def op06_flow_indent(lines, docs, rng):
     """[200] s-l+flow-in-block(n) ::= s-separate(n+1,flow-out) ns-flow-node(n+1,flow-out): every continuation line of a flow
     collection that is a value / entry of a block collection at indentation n starts with [69] s-flow-line-prefix(n+1),
@@ -500,8 +517,19 @@ def op06_flow_indent(lines, docs, rng):
     if cands:
         i = rng.choice(cands)
         m = [l.copy() for l in lines]
-        m[i]["ind"] = rng.randrange(0, lines[i].base + 1)
-        out.append(("flow-continuation-not-deeper-than-block", strip(render(m))))
+        x = rng.randrange(0, lines[i].base + 1)
+        m[i]["ind"] = x
+        h = i - 1
+        while lines[h].role == "flowcont":
+            h -= 1
+        ht = lines[h].text
+        before = ht[ht.index(S_FB) - 1:] + "\n" + "\n".join(l.text for l in lines[h + 1:i])
+        first = strip(lines[i].text)[:1]
+        plain_start = first not in "'\"[]{}&*!,?"
+        var = "continuation-%s-block-indentation/%s-start/%s" % (
+            "at" if x == lines[i].base else "left-of", "plain" if plain_start else "non-plain",
+            "plain-scalar-before" if has_plain_scalar(before) else "no-plain-scalar-before")
+        out.append((var, strip(render(m))))
     return out
 
 
@@ -798,12 +826,30 @@ OPS = [
 # ------------------------------------------------------------------------------------------------
 _STRAY = re.compile(r"(^|[\[,\s])\?[ ]*\][ ]*\]")
 _LONGKEY = re.compile(r"(k{1021,}['\"]?): v \]")
+_MLKEY = re.compile(r"(['\"])ab\n +cd\1: v \]")
+
+
+def flow_mapping_seen_before_multiline_key(text):
+    m = _MLKEY.search(text)
+    return bool(m) and "{" in unquoted(text[:m.start()])
+
 
 PREDICATES = {
     # a flow sequence whose last entry is an empty explicit key ("?" directly followed by "]") and then one more "]"
-    "stray-closer-after-empty-explicit-key": lambda cls, var, text: cls == "03-mismatched-closer" and bool(_STRAY.search(text)),
+    "stray-closer-after-empty-explicit-key":
+        lambda cls, var, text: cls == "03-mismatched-closer" and bool(_STRAY.search(text)),
     # an implicit key of more than 1024 characters as single pair of a flow sequence
-    "long-implicit-key-in-flow-sequence": lambda cls, var, text: cls == "08-long-key" and var.startswith("flow-pair-key") and bool(_LONGKEY.search(text)),
+    "long-implicit-key-in-flow-sequence":
+        lambda cls, var, text: cls == "08-long-key" and var.startswith("flow-pair-key") and bool(_LONGKEY.search(text)),
+    # a continuation line of a flow collection exactly AT the indentation of the enclosing block entry, not starting with
+    # a plain scalar, after a plain scalar was scanned inside the collection
+    "flow-continuation-at-block-indentation":
+        lambda cls, var, text: cls == "06-flow-indent"
+        and var == "continuation-at-block-indentation/non-plain-start/plain-scalar-before",
+    # a quoted single-pair key spanning two lines in a flow sequence, after any "{" earlier in the stream
+    "multiline-flow-pair-key-after-flow-mapping":
+        lambda cls, var, text: cls == "07-multiline-key" and var == "quoted-flow-pair-key-on-two-lines"
+        and flow_mapping_seen_before_multiline_key(text),
 }
 
 
